@@ -141,31 +141,38 @@ Init ==
     /\ last = [op |-> "init"]
     /\ pc = 1
     /\ obs = {}
-    /\ saved = <<>>
+    /\ saved = EmptyFn
 
 (***************************************************************************)
 (* Ghost coupling: verdict of the reference spec vs result of the model    *)
 (***************************************************************************)
 Mismatch(v, r) == (v = "ok" /\ r # "ok") \/ (v = "err" /\ r = "ok")
+\* GhostGate: the reference specification follows the model.  TRUE everywhere except in the trace
+\* specification MTrace, which keeps validating the MODEL on histories the reference specification
+\* cannot follow (two attributes sharing an identifier, finding F-ALIAS): there it is NoAlias, and
+\* with the gate closed the ghost state is frozen and never evaluated (TLC passes arguments lazily).
+GhostGate == TRUE
+Gh(x) == IF GhostGate THEN x ELSE g
 Couple(v, r, gnext, tags) ==
     /\ res' = r
-    /\ g' = IF r = "ok" /\ v # "err" THEN gnext ELSE g
-    /\ bad' = bad \cup (IF Mismatch(v, r) THEN tags ELSE {})
+    /\ g' = IF GhostGate /\ r = "ok" /\ v # "err" THEN gnext ELSE g
+    /\ bad' = IF GhostGate THEN bad \cup (IF Mismatch(v, r) THEN tags ELSE {}) ELSE bad
 
 Unch(vs) == UNCHANGED vs
 
 (***************************************************************************)
 (* Structure edits (on the structure held by the master key)               *)
 (***************************************************************************)
-AddDimA(d) ==
+AddDimK(d, kind) ==
     /\ On("AddDim")
-    /\ last' = [op |-> "add_dim", d |-> d, kind |-> Kind[d]]
+    /\ last' = [op |-> "add_dim", d |-> d, kind |-> kind]
     /\ IF d \in DOMAIN st
        THEN /\ Couple(AddDimV(g, d), "err", g, {"C09"})
             /\ UNCHANGED <<st, msk, nsid, nid, mpks, usk, users, nuid, encs, lnk, idu, saved>>
-       ELSE /\ st' = st @@ (d :> [kind |-> Kind[d], attrs |-> <<>>])
-            /\ Couple(AddDimV(g, d), "ok", AddDim(g, d, Kind[d]), {"C09"})
+       ELSE /\ st' = st @@ (d :> [kind |-> kind, attrs |-> <<>>])
+            /\ Couple(AddDimV(g, d), "ok", AddDim(g, d, kind), {"C09"})
             /\ UNCHANGED <<msk, nsid, nid, mpks, usk, users, nuid, encs, lnk, idu, saved>>
+AddDimA(d) == AddDimK(d, Kind[d])
 
 DelDimA(d) ==
     /\ On("DelDim")
@@ -194,7 +201,7 @@ AddAttrA(d, n, h, after) ==
                    a == [n |-> n, id |-> id, h |-> h, a |-> TRUE]
                IN /\ st' = [st EXCEPT ![d].attrs = InsertAt(s, p, a)]
                   /\ nid' = nid + 1
-                  /\ idu' = idu @@ (g.nextUid :> id)
+                  /\ idu' = IF GhostGate THEN idu @@ (g.nextUid :> id) ELSE idu
                   /\ Couple(v, "ok", AddAttr(g, d, n, h, after), {"C09"})
                   /\ UNCHANGED <<msk, nsid, mpks, usk, users, nuid, encs, lnk, saved>>
 
@@ -235,15 +242,13 @@ DisableA(d, n) ==
 LinkNew(mnew, gnew, rightsOfSel) ==
     {<<mnew[p[1]][1].sid, gnew.msk[p[2]][1].t>> : p \in {q \in rightsOfSel : q[1] \in DOMAIN mnew /\ q[2] \in DOMAIN gnew.msk}}
 
-UpdateA ==
+\* Win(r, C): the candidate that wins for a right reached by several selections (HashMap collect: any may)
+UpdateWith(Win(_, _)) ==
     /\ On("Update")
     /\ last' = [op |-> "update"]
     /\ LET om == Omega(st)
            v == UpdateV(g)
-           Ambig == {r \in DOMAIN om : Cardinality(om[r]) > 1}
-       IN \E amb \in [Ambig -> UNION {om[r] : r \in Ambig}] :       \* HashMap collect: any candidate wins
-            /\ \A r \in Ambig : amb[r] \in om[r]
-            /\ LET pick == [r \in DOMAIN om |-> IF r \in Ambig THEN amb[r] ELSE CHOOSE x \in om[r] : TRUE]
+       IN   /\ LET pick == [r \in DOMAIN om |-> IF Cardinality(om[r]) > 1 THEN Win(r, om[r]) ELSE CHOOSE x \in om[r] : TRUE]
                IN
                IF \E r \in DOMAIN om : ~pick[r].a /\ r \notin DOMAIN msk
                THEN /\ Couple(v, "err", g, {"C09"})
@@ -261,9 +266,16 @@ UpdateA ==
                        /\ msk' = m2
                        /\ nsid' = nsid + Len(new)
                        /\ mpks' = Append(mpks, MMpk(m2, st))
-                       /\ lnk' = IF v # "err" THEN lnk \cup LinkNew(m2, gn, newpairs) ELSE lnk
+                       /\ lnk' = IF GhostGate /\ v # "err" THEN lnk \cup LinkNew(m2, gn, newpairs) ELSE lnk
                        /\ Couple(v, "ok", gn, {"C09", "C10"})
                        /\ UNCHANGED <<st, nid, usk, users, nuid, encs, idu, saved>>
+
+UpdateA ==
+    LET om == Omega(st)
+        Ambig == {r \in DOMAIN om : Cardinality(om[r]) > 1}
+    IN \E amb \in [Ambig -> UNION {om[r] : r \in Ambig}] :
+         /\ \A r \in Ambig : amb[r] \in om[r]
+         /\ UpdateWith(LAMBDA r, C : amb[r])
 
 (***************************************************************************)
 (* rekey (validates all rights first, commit 1093408; keeps the activation *)
@@ -289,7 +301,7 @@ RekeyA(pol) ==
                   /\ msk' = m2
                   /\ nsid' = nsid + Len(R)
                   /\ mpks' = Append(mpks, MMpk(m2, st))
-                  /\ lnk' = IF v = "ok" THEN lnk \cup LinkNew(m2, gn, pairs) ELSE lnk
+                  /\ lnk' = IF GhostGate /\ v = "ok" THEN lnk \cup LinkNew(m2, gn, pairs) ELSE lnk
                   /\ Couple(v, "ok", gn, {"C09"})
                   /\ UNCHANGED <<st, nid, usk, users, nuid, encs, idu, saved>>
 
@@ -363,7 +375,7 @@ CloneA(u, from) ==
     /\ from \in DOMAIN usk /\ u \notin DOMAIN usk
     /\ last' = [op |-> "clone_usk", u |-> u, from |-> from]
     /\ usk' = usk @@ (u :> usk[from])
-    /\ g' = CloneUsk(g, u, from)
+    /\ g' = Gh(CloneUsk(g, u, from))
     /\ res' = "ok"
     /\ UNCHANGED <<st, msk, nsid, nid, mpks, users, nuid, encs, lnk, idu, bad, saved>>
 
@@ -424,32 +436,53 @@ RoundTripA ==
 (* way to meet "valid MAC, identifier unknown to the master key" (C17).    *)
 (* The access structure travels with the master key.                       *)
 (***************************************************************************)
-SaveA ==
+SaveSlotA(slot) ==
     /\ On("Save")
-    /\ saved = <<>>
-    /\ last' = [op |-> "save_msk", slot |-> "s1"]
-    /\ saved' = <<[st |-> st, msk |-> msk, users |-> users]>>
-    /\ g' = SaveMsk(g, "s1")
+    /\ last' = [op |-> "save_msk", slot |-> slot]
+    /\ saved' = [x \in DOMAIN saved \cup {slot} |-> IF x = slot THEN [st |-> st, msk |-> msk, users |-> users] ELSE saved[x]]
+    /\ g' = Gh(SaveMsk(g, slot))
     /\ res' = "ok"
     /\ UNCHANGED <<st, msk, nsid, nid, mpks, usk, users, nuid, encs, lnk, idu, bad>>
+SaveA == "s1" \notin DOMAIN saved /\ SaveSlotA("s1")
 
-RestoreA ==
+RestoreSlotA(slot) ==
     /\ On("Restore")
-    /\ saved # <<>>
-    /\ last' = [op |-> "restore_msk", slot |-> "s1"]
-    /\ st' = saved[1].st
-    /\ msk' = saved[1].msk
-    /\ users' = saved[1].users
-    /\ g' = RestoreMsk(g, "s1")
+    /\ slot \in DOMAIN saved
+    /\ last' = [op |-> "restore_msk", slot |-> slot]
+    /\ st' = saved[slot].st
+    /\ msk' = saved[slot].msk
+    /\ users' = saved[slot].users
+    /\ g' = Gh(RestoreMsk(g, slot))
     /\ res' = "ok"
     /\ UNCHANGED <<nsid, nid, mpks, usk, nuid, encs, lnk, idu, bad, saved>>
+RestoreA == RestoreSlotA("s1")
+
+\* MasterSecretKey::mpk(): the public key of the master key as it is, with the structure as it is
+MpkA ==
+    /\ On("Mpk")
+    /\ last' = [op |-> "mpk"]
+    /\ Len(mpks) < MaxMpk
+    /\ mpks' = Append(mpks, MMpk(msk, st))
+    /\ g' = Gh(RederiveMpk(g))
+    /\ res' = "ok"
+    /\ UNCHANGED <<st, msk, nsid, nid, usk, users, nuid, encs, lnk, idu, bad, saved>>
+
+\* the caller forgets an encapsulation (no library call)
+DropEncA(e) ==
+    /\ On("DropEnc")
+    /\ e \in DOMAIN encs
+    /\ last' = [op |-> "drop_enc", e |-> e]
+    /\ encs' = Without(encs, {e})
+    /\ g' = Gh(DropEnc(g, e))
+    /\ res' = "ok"
+    /\ UNCHANGED <<st, msk, nsid, nid, mpks, usk, users, nuid, lnk, idu, bad, saved>>
 
 DropUskA(u) ==
     /\ On("DropUsk")
     /\ u \in DOMAIN usk
     /\ last' = [op |-> "drop_usk", u |-> u]
     /\ usk' = Without(usk, {u})
-    /\ g' = DropUsk(g, u)
+    /\ g' = Gh(DropUsk(g, u))
     /\ res' = "ok"
     /\ UNCHANGED <<st, msk, nsid, nid, mpks, users, nuid, encs, lnk, idu, bad, saved>>
 
@@ -479,6 +512,8 @@ Free ==
     \/ Past /\ SaveA /\ ObsUpd
     \/ Past /\ RestoreA /\ ObsUpd
     \/ \E u \in Users : Past /\ DropUskA(u) /\ ObsUpd
+    \/ Past /\ MpkA /\ ObsUpd
+    \/ \E e \in EncIds : Past /\ DropEncA(e) /\ ObsUpd
 
 Scripted(a) ==
     CASE a.op = "add_dim" -> AddDimA(a.d)
